@@ -34,6 +34,7 @@ type lrCase struct {
 	NoLibs  bool     `json:"nolibs"`
 	MaxEv   int      `json:"maxev"`
 	Gor     bool     `json:"gor"` // report the number of goroutines left behind by the case
+	Raw     bool     `json:"raw"` // call the chunk with rt.Call directly instead of inside Thread.CallContext
 	GorExp  *int     `json:"gor_expect"` // if set, wait (up to 3 s) for that number before reporting
 }
 
@@ -231,16 +232,20 @@ func runLuaCase(c *lrCase) (o lrOut) {
 		return nil
 	}
 	var err error
-	if limited {
+	if limited || !c.Raw {
+		// The chunk runs the way quotas.md documents for hosts: inside Thread.CallContext (what pcall
+		// does too), so that an error reaching the host still closes pending to-be-closed variables.
 		def := rt.RuntimeContextDef{HardLimits: rt.RuntimeResources{Cpu: c.Cpu, Memory: c.Mem}}
 		for _, f := range c.Flags {
 			def.RequiredFlags, _ = def.RequiredFlags.AddFlagWithName(f)
 		}
 		var ctx rt.RuntimeContext
 		ctx, err = t.CallContext(def, body)
-		o.Status = ctx.Status().String()
-		u := ctx.UsedResources()
-		o.UsedCpu, o.UsedMem = u.Cpu, u.Memory
+		if limited {
+			o.Status = ctx.Status().String()
+			u := ctx.UsedResources()
+			o.UsedCpu, o.UsedMem = u.Cpu, u.Memory
+		}
 	} else {
 		err = body()
 	}
